@@ -89,6 +89,13 @@ Definition failing {Sc Ob : Type} (admits spec : Sc -> Ob -> bool) (cs : list (n
   : list (nat * bool * bool) :=
   filter (fun r => negb (snd (fst r) && snd r))
          (map (fun c => let '(i, s, ob) := c in (i, admits s ob, spec s ob)) cs).
+(* the same with the predicate also evaluated on the model's own observation: a predicate that
+   is false of the model's observation is a defect of the predicate, not of the code *)
+Definition failing4 {Sc Ob : Type} (admits spec : Sc -> Ob -> bool) (mobs : Sc -> Ob)
+           (cs : list (nat * Sc * Ob)) : list (nat * bool * bool * bool) :=
+  filter (fun r => negb (snd (fst (fst r)) && snd (fst r) && snd r))
+         (map (fun c => let '(i, s, ob) := c in (i, admits s ob, spec s ob, spec s (mobs s))) cs).
+Definition engine_mobs (sc : escen) : eobs := eobs_of_model (model_obs sc).
 (* negative controls: corrupted observations that must NOT be admitted *)
 Definition accepted {Sc Ob : Type} (admits : Sc -> Ob -> bool) (cs : list (nat * Sc * Ob))
   : list nat :=
